@@ -3,7 +3,7 @@
 # so that several can run side by side; prints one line.  Used by tools/seed_matrix_par.sh.
 n=$1
 p=$(echo $n | cut -d_ -f1)
-wt=/tmp/w/mwt_$n
+mkdir -p /tmp/w; wt=/tmp/w/mwt_$n
 git -C /repo worktree add -q --detach $wt HEAD 2>/dev/null || { echo "$n | WORKTREE-FAILED"; exit 0; }
 if ! git -C $wt apply /verif/seeded/$n/patch.diff 2>/dev/null; then echo "$n | APPLY-FAILED"; git -C /repo worktree remove --force $wt; exit 0; fi
 out=$(cd /verif && RZIL_REPO=$wt bin/check $p --tier quick 2>&1); rc=$?
